@@ -113,6 +113,8 @@ type ItemResult struct {
 	DupViolations    int
 	InconclusiveMore int
 	Cuts             map[string]int
+	CrossChecked     int
+	CrossUnknown     int
 }
 
 // ---------- running one work item ----------
@@ -290,6 +292,10 @@ func (ex *Exec) runItem(p *Program, item WorkItem, fn *ssa.Function) (res *ItemR
 		ex.abs.Close()
 		ex.abs = nil
 	}
+	if ex.cross != nil {
+		ex.cross.Close()
+		ex.cross = nil
+	}
 	defer func() {
 		res.Wall = time.Since(t0)
 		res.Instrs = ex.stats.Instrs
@@ -454,6 +460,9 @@ func runProperty(p *Program, spec *PropSpec, opt RunOptions) []*ItemResult {
 				}
 				if ex.abs != nil {
 					ex.abs.Close()
+				}
+				if ex.cross != nil {
+					ex.cross.Close()
 				}
 			}()
 			for i := range ch {
